@@ -137,7 +137,9 @@ DistinctIds == \A i, j \in 1 .. Len(live) : i # j => live[i].id # live[j].id
 (* The abstract ring writes nothing on its own (W = {}) and may place a PDU into *any* free   *)
 (* region; ids are the smallest unused ones.                                                  *)
 CONSTANTS MaxLive,       \* bound on the number of live PDUs
-          Configs        \* set of <<Size, MinSz>> explored
+          Configs        \* set of configurations explored, each encoded as 10 * Size + MinSz (cfg files have no tuples)
+CfgSize(c) == c \div 10
+CfgMin(c)  == c % 10
 FreshId == CHOOSE i \in 1 .. MaxLive + 1 : i \notin Ids(live)
 Next ==
     \/ \E size \in MinSz + 1 .. Size + 1, off \in Cells, r \in BOOLEAN : Alloc(size, r, off, {})
@@ -149,7 +151,7 @@ Next ==
        ELSE Peek(TRUE, Oldest.off, Oldest.len, [k \in 1 .. Oldest.len |-> mem[Oldest.off + k - 1]])
     \/ Reset(Size, MinSz, {})
 
-Spec == (\E c \in Configs : Init(c[1], c[2])) /\ [][Next]_vars
+Spec == (\E c \in Configs : Init(CfgSize(c), CfgMin(c))) /\ [][Next]_vars
 
 \* an empty ring never refuses a PDU of up to Size - 1 bytes; a failing alloc leaves no room
 EmptyRoom == live = <<>> => \A size \in MinSz + 1 .. Size - 1 : HasRoom(size)
